@@ -141,7 +141,10 @@ def judge(family, case, rec):
 
     def run_sample(n, rs):
         start = len(backend.LOG)
-        res = net.sample(n, random_state=rs) if rs is not None else net.sample(n)
+        if rs is not None and case["k"] % 3 == 1:
+            res = net.sample(n, rs)        # both arguments positionally (documented order: n, random_state)
+        else:
+            res = net.sample(n, random_state=rs) if rs is not None else net.sample(n)
         return res, backend.LOG[start:]
 
     # ---- sample calls with the three forms of n
